@@ -54,6 +54,16 @@ public:
   virtual void describe(Json &coverage, Json &assumptions) const = 0;
   // name of the key in the case that holds the Sched json ("" = none)
   virtual std::string sched_key() const { return "sched"; }
+  // Classes whose very content is "two executions of the same case differ"
+  // (run-to-run reproducibility, decisions on uninitialised memory): the
+  // determinism gate cannot demand identical event-log hashes from a system
+  // under test that is itself nondeterministic; for these classes the
+  // violation must reproduce as a class in both fresh re-runs and in the
+  // fresh-process replay.
+  virtual bool hash_free_class(const std::string &vclass) const {
+    (void)vclass;
+    return false;
+  }
 };
 
 int check_main(int argc, char **argv, Engine &engine);
